@@ -11,6 +11,7 @@ from nix_manipulator.expressions.comment import Comment
 from nix_manipulator.expressions.expression import NixExpression
 from nix_manipulator.expressions.inherit import Inherit
 from nix_manipulator.expressions.trivia import parse_delimited_sequence
+from nix_manipulator.expressions.layout import point_row
 
 
 def parse_binding_sequence(
@@ -36,7 +37,7 @@ def parse_binding_sequence(
         return (
             prev is not None
             and prev.type in ("binding", "inherit", "inherit_from")
-            and comment_node.start_point.row == prev.end_point.row
+            and point_row(comment_node.start_point) == point_row(prev.end_point)
             and bool(items)
         )
 
